@@ -137,7 +137,8 @@ mod h {
     fn multi_segment_paths() {
         use crate::named::{GpExec, GpQuery, GpSudo};
         use support::rec::{K_FIELD, K_STRUCT_VARIANT, K_U64};
-        use support::sym::{in_list, str_eq};
+        use crate::basic_names_h::in_list;
+        use support::sym::str_eq;
         let b = any_name::<2>();
         let s = as_str(&b);
         assert!(accepted::<GpExec>(s) == in_list(s, &["pn", "pv"]));
